@@ -364,6 +364,18 @@ func ReactScenarios() []History {
 	)
 	add("a-negative-timeout", smallParams(), nil, ops...)
 
+	// a timeout raised to the frequency (accepted) and then above it (refused), with batches still to come:
+	// the next batch keeps its place
+	ops = registry(map[string]int64{"p1": 5, "p2": 3})
+	ops = append(ops,
+		Ev{Name: "Call", Signer: "c1", Svc: "s1", Provs: both, Cap: 10, Timeout: 2, Rep: true, Freq: 3, Total: 5},
+		eb(1),
+		Ev{Name: "UpdateContext", Signer: "c1", ID: 1, Timeout: 3},
+		Ev{Name: "UpdateContext", Signer: "c1", ID: 1, Timeout: 4},
+		eb(1), eb(1), eb(1), eb(1), eb(1), eb(1), eb(1), eb(1), eb(1),
+	)
+	add("timeout-raised-to-and-above-the-frequency", smallParams(), map[string]int64{"c1": 200}, ops...)
+
 	return hs
 }
 
